@@ -87,6 +87,32 @@ func VerifNewQueue(s uint8) *VerifQueue {
 	return &VerifQueue{q: q}
 }
 
+// VerifNewQueueWith creates a real queue with sequence space s whose timeout
+// manager is configured with opts. Packets that resend retransmits are
+// reported to sent (which may be nil), so Resend may be called on this queue.
+func VerifNewQueueWith(s uint8, sent func(seq uint8),
+	opts ...TimeoutOptions) *VerifQueue {
+
+	tm := NewTimeOutManager(nil, opts...)
+	q := newQueue(&queueCfg{
+		s: s,
+		sendPkt: func(packet *PacketData) error {
+			if sent != nil {
+				sent(packet.Seq)
+			}
+
+			return nil
+		},
+	}, tm)
+
+	return &VerifQueue{q: q}
+}
+
+// Resend calls the real resend, as the send loop does.
+func (v *VerifQueue) Resend() error {
+	return v.q.resend()
+}
+
 // Set forces the base and the top of the window.
 func (v *VerifQueue) Set(base, top uint8) {
 	v.q.baseMtx.Lock()
